@@ -99,4 +99,85 @@ theorem gen_hvAP_partial (r : Pt) (vecs : List Pt) (hS : ∀ p ∈ vecs, Le p r)
     chvGen prog (vecs.map liftPt) (liftPt r) true = .out (.fin (hvSpec vecs r)) :=
   gen_compute_hypervolume_exact vecs r hS true
 
+
+/-! ## `_solve_hssp` / `_solve_hssp_on_unique_loss_vals`, for the interpreters of the generated IR -/
+
+open OptunaVerif.HsspIR in
+theorem map_getD_range (ids : List Nat) : (List.range ids.length).map (fun j => ids.getD j 0) = ids := by
+  apply List.ext_getElem?
+  intro i
+  by_cases h : i < ids.length
+  · simp [h, List.getElem?_eq_getElem h]
+  · simp [h, List.getElem?_eq_none (Nat.le_of_not_lt h)]
+
+open OptunaVerif.HsspIR in
+/-- the reference of `_solve_hssp` reads the hand model's positions through `rank_i_indices` -/
+theorem solveHsspRef_eq (vals : List Pt) (ids : List Nat) (k : Nat) (r : Pt) (fin : Bool) (hn : ids.length = vals.length) :
+    solveHsspRef (fun U l k => solveOnUnique U l k r fin) vals ids k = (solveHssp vals k r fin).map (fun j => ids.getD j 0) := by
+  unfold solveHsspRef solveHssp
+  simp only [hn]
+  by_cases hk : k = vals.length
+  · simp only [hk, if_true]; rw [← hn, map_getD_range]
+  · simp only [hk, if_false]
+    split <;> rfl
+
+open OptunaVerif.HsspIR in
+/-- **gen_solve_hssp_eq_hand_partial** — `_solve_hssp` + `_solve_hssp_on_unique_loss_vals` as written today (with `_lazy_contribs_update` and
+`_solve_hssp_2d` as the hand model's functions) return the hand model's selection read through `rank_i_indices`, for EVERY array
+(duplicated loss vectors included), every `rank_i_indices` of the same length, every `k`, reference point. -/
+theorem gen_solve_hssp_eq_hand_partial (vals : List Pt) (ids : List Nat) (k : Nat) (r : Pt) (fin : Bool) (hn : ids.length = vals.length) :
+    topGen Generated.HsspMethods.prog.top
+      (fun U l k => uniqueGen Generated.HsspMethods.prog.greedy (fun cs vs s => lazyUpdate r cs vs s)
+        (fun U labels k => hssp2dLoop k ((U.zip labels).map (fun e => { pt := e.1, label := e.2, dx := x0 r, dy := y1 r }))) U l k r fin)
+      vals ids k = .idx ((solveHssp vals k r fin).map (fun j => ids.getD j 0)) := by
+  rw [gen_solve_hssp_eq]
+  congr 1
+  rw [← solveHsspRef_eq vals ids k r fin hn]
+  unfold solveHsspRef
+  simp only
+  split
+  · rfl
+  · split
+    · rfl
+    · rw [gen_solve_on_unique_eq_partial _ _ _ _ _ (by simp)]
+
+open OptunaVerif.HsspIR in
+/-- **gen_hssp_returns_k_distinct_members_partial** — what the generated `_solve_hssp` returns is exactly `k` DISTINCT members of
+`rank_i_indices`, for every input: duplicated loss vectors, arbitrary (distinct) `rank_i_indices`, every branch. -/
+theorem gen_hssp_returns_k_distinct_members_partial (vals : List Pt) (ids : List Nat) (r : Pt) (hv : ∀ p ∈ vals, Le p r) (k : Nat)
+    (hk : k ≤ vals.length) (fin : Bool) (hn : ids.length = vals.length) (hid : ids.Nodup) :
+    ∃ res, topGen Generated.HsspMethods.prog.top
+      (fun U l k => uniqueGen Generated.HsspMethods.prog.greedy (fun cs vs s => lazyUpdate r cs vs s)
+        (fun U labels k => hssp2dLoop k ((U.zip labels).map (fun e => { pt := e.1, label := e.2, dx := x0 r, dy := y1 r }))) U l k r fin)
+      vals ids k = .idx res ∧ res.length = k ∧ res.Nodup ∧ ∀ x ∈ res, x ∈ ids := by
+  obtain ⟨h1, h2, h3⟩ := C15.hssp_returns_k_distinct_members vals r hv k hk fin
+  refine ⟨_, gen_solve_hssp_eq_hand_partial vals ids k r fin hn, by simp [h1], ?_, ?_⟩
+  · refine (List.nodup_map_iff_inj_on h2).mpr ?_
+    intro i hi j hj hij
+    have hi' : i < ids.length := by rw [hn]; exact h3 i hi
+    have hj' : j < ids.length := by rw [hn]; exact h3 j hj
+    simp only [List.getD_eq_getElem?_getD, List.getElem?_eq_getElem hi', List.getElem?_eq_getElem hj', Option.getD_some] at hij
+    exact (List.Nodup.getElem_inj_iff hid).mp hij
+  · intro x hx
+    obtain ⟨j, hj, rfl⟩ := List.mem_map.mp hx
+    have hj' : j < ids.length := by rw [hn]; exact h3 j hj
+    simp [List.getD_eq_getElem?_getD, List.getElem?_eq_getElem hj']
+
+open OptunaVerif.HsspIR in
+/-- **gen_greedy_loop_is_greedy_run_partial** — the generated main loop (d ≠ 2) makes, at every step, a pick of maximal true marginal
+hypervolume contribution (`GreedyRun`), which is the hypothesis of the greedy gap / 1 − 1/e bounds of `Props/C15.lean`. -/
+theorem gen_greedy_loop_is_greedy_run_partial (r : Pt) (hd : r.length ≠ 2) (U : List Pt) (labels : List Nat)
+    (hlen : labels.length = U.length) (hU : ∀ p ∈ U, Le p r) (k : Nat) (hk : k < U.length) :
+    ∃ picks : List (Pt × Nat),
+      uniqueGen Generated.HsspMethods.prog.greedy (fun cs vs s => lazyUpdate r cs vs s)
+        (fun U labels k => hssp2dLoop k ((U.zip labels).map (fun e => { pt := e.1, label := e.2, dx := x0 r, dy := y1 r }))) U labels k r true =
+        picks.map (·.2) ∧ picks.length = k ∧ GreedyRun r [] (U.zip labels) picks := by
+  rw [gen_solve_on_unique_eq_partial U labels k r true hlen]
+  exact C15.greedy_loop_is_greedy_run r hd U labels hlen hU k hk
+
+-- the input of seeded C15-6: six rows, three distinct, k = 5, caller ids 10..15: five distinct ids
+open OptunaVerif.HsspIR in
+example : topGen Generated.HsspMethods.prog.top (fun _ _ _ => []) [[1, 1], [1, 1], [4, 4], [2, 1], [4, 4], [1, 1]] [10, 11, 12, 13, 14, 15] 5 =
+    .idx [10, 11, 12, 13, 14] := by decide
+
 end OptunaVerif.C15GenSpec
